@@ -116,3 +116,99 @@ PROPS["C19"] = {
     "assumptions": ["fft.New(2^27) itself is not constructed (3 GB); 2^27+1 and above are checked by argument only",
                     "a panic on a wrong-length slice counts as 'refused' (the property says refused rather than computed)"],
 }
+
+_STREAM = ("streams are composed by rapid from a committed pool of classified PRNG samples (search guidance only; every oracle recomputes all results on the current tree): "
+           "targets {pass count of a drawn item at allowed-1..allowed+2 failing samples, ten-bin Q histogram of a drawn item drawn from all partitions of s with uniformity P in [1e-6,1e-2] "
+           "in a drawn bin order, two items failing, random pool samples, all-pass samples, (periodic) 20 degree-63 LFSR samples that only the excluded items 13-15 reject}, samples shuffled, "
+           "0 / 1 / sampleBytes-1 / sampleBytes / 3*sampleBytes trailing bytes (zero or random). ")
+RULES["C07"] = (_STREAM + "oracle: independent decision model (exact-integer threshold, own binning, big.Float igamc) over the registry runners' results on each sample: verdict equal, nil error iff true, "
+                "error names an item violating a criterion; (periodic) same outcome with and without the trailing bytes. non-trivial: some item's pass count in {t-1,t} or some item's uniformity P in [1e-5,1e-3]. "
+                "distinct: hash of the case JSON.")
+PROPS["C07"] = {
+    "level": "exploration",
+    "quick": shards(6, "TestC07", 150, mode="period", floor=50) + [S("TestC07", 1, mode="poweron", floor=1, weight=2, env={"VERIF_TARGETS": tg}) for tg in ("passcount", "uniformity", "passcount", "two-items")]
+             + [S("TestC07", 1, mode="factory", floor=1, weight=2, env={"VERIF_TARGETS": tg}) for tg in ("passcount", "uniformity")],
+    "thorough": shards(6, "TestC07", 1500, mode="period", floor=500) + shards(7, "TestC07", 20, mode="poweron", floor=6, weight=2, timeout=3400)
+                + shards(3, "TestC07", 8, mode="factory", floor=3, weight=2, timeout=3400),
+    "assumptions": ["the registry runners' per-sample results are taken as given (their correctness is C01-C05/C15/C16)",
+                    "pool annotations (computed once on the repaired tree) only steer generation"],
+}
+
+_CPUS = ["0", "0-1", "0-2", "0-4", None]   # taskset masks: runtime.NumCPU() (= worker count) of 1, 2, 3, 5 and all
+
+RULES["C08"] = (_STREAM + "each stream is judged by the sequential workflow (full reads) and then by its parallel twin through a reader that delays individual Read calls "
+                "(none / Gosched x k / sleep 50-2000 us, drawn plan), with GOMAXPROCS drawn from {1,2,4,16} and the worker count varied by running shards under taskset with 1, 2, 3, 5 and all CPUs; "
+                "a second binary built with -race repeats a reduced budget (any race report = violation). oracle: verdicts equal; if false, both errors name the same registry item; nil error iff true. "
+                "non-trivial: sequential verdict true, or false for a reason other than 'item passes on no sample'. distinct: hash of the case JSON.")
+PROPS["C08"] = {
+    "level": "exploration",
+    "quick": [S("TestC08", 70, mode="period", cpus=c, floor=30) for c in _CPUS] + [S("TestC08", 70, mode="period", floor=30)]
+             + [S("TestC08", 25, mode="period", race=True, floor=10, weight=3)]
+             + [S("TestC08", 1, mode="poweron", floor=1, weight=4), S("TestC08", 1, mode="poweron", cpus="0-2", floor=1, weight=3), S("TestC08", 1, mode="factory", floor=1, weight=4)],
+    "thorough": [S("TestC08", 1500, mode="period", cpus=c, floor=400) for c in _CPUS] + shards(3, "TestC08", 1500, mode="period", floor=400)
+             + shards(2, "TestC08", 300, mode="period", race=True, floor=100, weight=2)
+             + [S("TestC08", 12, mode="poweron", cpus=c, floor=4, weight=3, timeout=3400) for c in ("0-1", "0-4", None, None)]
+             + [S("TestC08", 5, mode="factory", floor=2, weight=4, timeout=3400), S("TestC08", 1, mode="poweron", race=True, floor=1, weight=4, timeout=3400)],
+    "assumptions": ["interleavings are sampled and perturbed, not enumerated; delays inside the test runners are not injectable without a hook",
+                    "the race detector only sees races on executed paths"],
+}
+
+RULES["C09"] = ("fault points: workflow in {factory, poweron, period} x {sequential, parallel} and single-shot; failure kind in {io.EOF, io.ErrUnexpectedEOF, custom error, error returned with a partial read, "
+                "transient error followed by more data}; offset enumerated: SingleDetect every offset for numByte in {16,40,1280}; periodic workflows every sample boundary -1/0/+1, first/last three offsets, two interior ones; "
+                "10^6-bit workflows offsets {0,1,mid-sample,sample-1,sample,sample+1} (thorough: also deep/last-sample offsets); plus rapid-drawn offsets, read-delay plans and GOMAXPROCS for the parallel variants. "
+                "oracle: returns (false, err != nil); 'returns' is decided by a quiescence detector (three consecutive 100 ms snapshots in which every goroutine with a library frame is parked on a channel/semaphore/mutex) "
+                "not by a stopwatch; afterwards the library goroutines drain back to the baseline. non-trivial: at least one full sample was delivered before the failure (single-shot: offset > 0). distinct: hash of the case JSON.")
+PROPS["C09"] = {
+    "level": "fault_enumeration",
+    "quick": [S("TestC09Enum", mode="single", floor=1000)] + [S("TestC09Enum", mode="period", floor=50, env={"VERIF_PART": i, "VERIF_PARTS": 4}) for i in range(4)]
+             + [S("TestC09Enum", mode="big", floor=5, env={"VERIF_PART": i, "VERIF_PARTS": 6}, weight=2) for i in range(6)]
+             + [S("TestC09", 150, mode="period", floor=50), S("TestC09", 150, mode="period", cpus="0-1", floor=50), S("TestC09", 400, mode="single", floor=100)]
+             + [S("TestC09", 60, mode="period", race=True, floor=20, weight=2)],
+    "thorough": [S("TestC09Enum", mode="single", floor=1000)] + [S("TestC09Enum", mode="period", floor=50, env={"VERIF_PART": i, "VERIF_PARTS": 4}) for i in range(4)]
+             + [S("TestC09Enum", mode="big", floor=5, env={"VERIF_PART": i, "VERIF_PARTS": 6}, weight=2) for i in range(6)]
+             + [S("TestC09", 3000, mode="period", cpus=c, floor=800) for c in _CPUS] + [S("TestC09", 5000, mode="single", floor=1000)]
+             + [S("TestC09", 20, mode="poweron", floor=6, weight=3, timeout=3400), S("TestC09", 12, mode="factory", floor=4, weight=3, timeout=3400)]
+             + [S("TestC09", 600, mode="period", race=True, floor=200, weight=2)],
+    "assumptions": ["the harness owns the only external party (the reader), so 'all library goroutines parked' means nothing can wake them",
+                    "a source that returns (0, nil) forever is outside the property"],
+}
+
+RULES["C10"] = (_STREAM + "each stream is delivered once in full-buffer reads to the sequential workflow (reference) and once through a chunking reader to the workflow under test (sequential or parallel; SingleDetect too): "
+                "plans {all 1-byte reads, fixed prime size 2..8191, random sizes in [1, sampleBytes+7], sizes sampleBytes+-1/-7/+13 that straddle every sample boundary, full reads with one short read per cycle}. "
+                "oracle: equal verdict and, when false, the same named item; SingleDetect consumes exactly numByte. non-trivial: the full-read verdict is true (stale or zero bytes would flip it) or the named item is not item 1. "
+                "distinct: hash of the case JSON.")
+PROPS["C10"] = {
+    "level": "exploration",
+    "quick": shards(5, "TestC10", 120, mode="period", floor=40) + [S("TestC10", 400, mode="single", floor=100)]
+             + [S("TestC10", 1, mode="poweron", env={"VERIF_FAST": 1}, floor=1, weight=4), S("TestC10", 1, mode="poweron", env={"VERIF_FAST": 0}, floor=1, weight=2),
+                S("TestC10", 1, mode="factory", env={"VERIF_FAST": 1}, floor=1, weight=4)],
+    "thorough": shards(6, "TestC10", 2500, mode="period", floor=600) + [S("TestC10", 5000, mode="single", floor=1000)]
+             + [S("TestC10", 10, mode="poweron", env={"VERIF_FAST": f}, floor=3, weight=3, timeout=3400) for f in (0, 1, 1)]
+             + [S("TestC10", 4, mode="factory", env={"VERIF_FAST": f}, floor=2, weight=3, timeout=3400) for f in (0, 1)],
+    "assumptions": ["the reference is the sequential workflow under full reads (its own correctness is C07)"],
+}
+
+RULES["C11"] = ("cases: numByte from {0,1,14..17,38..41,1278..1281,4096, [0,60], [1200,1400], 10000, 125000, [0,4096]} (sweep: every numByte 0..200 quick / 0..4096 thorough); content uniform, constant, byte alphabet, "
+                "nibble alphabet (e.g. {1,B}: 2-bit patterns uniform, 4-bit not), and 'skewed' content where an m-bit pattern is forced with a drawn probability of the order that moves the poker P across 0.01. "
+                "oracle: exactly numByte bytes consumed from a longer source; numByte < 16 => (false, error); else nil error and verdict = (reference poker P >= 0.01) with m = 2 / 4 / 8 for n < 320 / < 10240 / otherwise "
+                "(|P-0.01| < 1e-8 skipped). non-trivial: the verdicts under m = 2, 4, 8 would not all agree, or P in [0.001, 0.1], or 14 <= numByte < 16. distinct: hash of the case JSON.")
+PROPS["C11"] = {
+    "level": "exploration",
+    "quick": shards(6, "TestC11", 1500, floor=500) + [S("TestC11Sweep", floor=100, env={"VERIF_LO": 0, "VERIF_HI": 400})],
+    "thorough": shards(12, "TestC11", 20000, floor=5000) + [S("TestC11Sweep", floor=1000, env={"VERIF_LO": i * 1025, "VERIF_HI": i * 1025 + 1024}) for i in range(4)],
+    "assumptions": ["reference poker validated on the annex known answers on every run"],
+}
+
+RULES["C14"] = ("sources that repeat a tile of 1..64 bytes forever: constant (all 256 values enumerated through the periodic workflows), uniform random tiles, sparse tiles (1-3 set or cleared bits at any bit position), "
+                "structured tiles (counter, 55AA, one-hot, i*37), explicit 1-8 byte tiles; each through the sequential workflow and then its parallel twin; single-shot: 0x00.. and 0xFF.. at lengths {16,39,40,1279,1280} + drawn "
+                "(sweep: every length 16..400 quick / 16..4096 thorough). oracle: no panic, verdict false, error non-nil (single-shot: verdict false). non-trivial: the tile has >= 2 distinct byte values (single-shot cases count). distinct: hash of the case JSON.")
+PROPS["C14"] = {
+    "level": "exploration",
+    "quick": shards(4, "TestC14", 120, mode="period", floor=40) + [S("TestC14", 500, mode="single", floor=100), S("TestC14Enum", floor=200)]
+             + [S("TestC14", 1, mode="poweron", floor=1, weight=3, env={"VERIF_TILEKIND": "sparse"}), S("TestC14", 1, mode="poweron", floor=1, weight=3, env={"VERIF_TILEKIND": "uniform"}),
+                S("TestC14", 1, mode="factory", floor=1, weight=3, env={"VERIF_TILEKIND": "sparse"})]
+             + [S("TestC14Enum", mode="big", floor=1, weight=2, env={"VERIF_PART": i, "VERIF_PARTS": 4}) for i in range(4)],
+    "thorough": [S("TestC14Enum", mode="big", floor=1, weight=2, env={"VERIF_PART": i, "VERIF_PARTS": 4}) for i in range(4)] + shards(6, "TestC14", 3000, mode="period", floor=800) + [S("TestC14", 5000, mode="single", floor=1000), S("TestC14Enum", floor=200, env={"VERIF_HI": 4096})]
+             + shards(5, "TestC14", 10, mode="poweron", floor=3, weight=2, timeout=3400) + shards(2, "TestC14", 4, mode="factory", floor=2, weight=2, timeout=3400),
+    "assumptions": ["the 10^6-bit workflows cost 10-80 s per stream, so only a few tiles per run go through them"],
+}
